@@ -349,6 +349,9 @@ func (e *Engine) targets(c *Contract) []*ssa.Function {
 		ms := e.prog.MethodSets.MethodSet(ct)
 		for i := 0; i < ms.Len(); i++ {
 			if ms.At(i).Obj().Name() == c.Name[dot+1:] {
+				if viaEmbeddedInterface(ms.At(i)) {
+					continue // pure delegation to whatever the embedded interface holds
+				}
 				if f := e.prog.MethodValue(ms.At(i)); f != nil && f.Blocks != nil {
 					out = append(out, f)
 				}
@@ -356,4 +359,25 @@ func (e *Engine) targets(c *Contract) []*ssa.Function {
 		}
 	}
 	return out
+}
+
+// viaEmbeddedInterface reports whether a method is promoted through an embedded field of
+// interface type (the struct only delegates to the value stored there).
+func viaEmbeddedInterface(sel *types.Selection) bool {
+	t := sel.Recv()
+	idx := sel.Index()
+	for _, i := range idx[:len(idx)-1] {
+		if p, ok := t.Underlying().(*types.Pointer); ok {
+			t = p.Elem()
+		}
+		su, ok := t.Underlying().(*types.Struct)
+		if !ok {
+			return false
+		}
+		t = su.Field(i).Type()
+		if _, isI := t.Underlying().(*types.Interface); isI {
+			return true
+		}
+	}
+	return false
 }
